@@ -113,7 +113,7 @@ CHECKS.update({
             "Sequentially consistent interleavings at lock operations and hook points only; RTR wire path not included.",
             "deterministic simulation: seeded schedule exploration (shuttle random + PCT)", "§5 C15"),
     "C16": (ENGINE_D, "exploration",
-            "Shuttle schedules of an updater installing new data against clients sending conditional requests with the previous version's validators (ETag, date, both), including the instant between installing data and marking the update done and up to three further versions within the same simulated second; clients learn validators from whatever version is served and revalidate; a 304 must carry the ETag of the version the validators belong to. Sequential histories are covered as a by-product of Engine C.",
+            "Shuttle schedules of an updater installing new data against clients sending conditional requests with the previous version's validators (ETag, date, both), including the instant between installing data and marking the update done and up to three further versions within the same simulated second; clients learn validators from whatever version is served and revalidate; a 304 must carry the ETag of the version the validators belong to and, whatever the validators look like, the data set the client holds must be one that was served at some point of the request (each version has a distinct number of items; the updater publishes which version it has started and finished installing); history-size is drawn from {0, 1, 2, 10}. Sequential histories are covered as a by-product of Engine C.",
             "Scheduling points: history lock operations.",
             "deterministic simulation: seeded schedule exploration (shuttle random + PCT)", "§5 C16"),
     "C17": (ENGINE_D, "exploration",
